@@ -745,7 +745,7 @@ func (fr *Frame) execBlock(b *ssa.BasicBlock, st *State) error {
 }
 
 func (vc *VC) defineBool(prefix string, c Term) Term {
-	if len(c) <= 60 {
+	if len(c) <= 60 || vc.inQuant > 0 {
 		return c
 	}
 	n := vc.fresh(prefix, "Bool")
